@@ -235,13 +235,32 @@ def case_text(case):
     return emit_cif(case["lines"], cols)
 
 
+_PREV_TEXT = {}     # the last text of each format this process materialised (for the "rewritten file" action)
+
+
 def record_c08(case):
     """Materialise the table, call the public reader, project the answer (or the exception)."""
     import logging
     logging.disable(logging.CRITICAL)
     from rnapolis import parser
     c = dict(case)
-    path = _tmpfile(case["fmt"], case_text(case))
+    if zlib.crc32(str(case["id"]).encode()) % 5 == 2:
+        # environment action: every fifth case is written over the file of an earlier case of this process (same
+        # path, other content) - what a reader remembers about a path or a stream must not outlive its content
+        path = os.path.join(_TMPDIR, f"rewritten-{os.getpid()}.{case['fmt']}")
+        before = _PREV_TEXT.get(case["fmt"])
+        if before is not None:
+            with open(path, "w") as fh:
+                fh.write(before)
+            try:
+                with open(path) as fh:
+                    parser.read_3d_structure(fh)
+            except Exception:
+                pass            # the earlier content's reading is not under judgement
+        with open(path, "w") as fh:
+            fh.write(case_text(case))
+    else:
+        path = _tmpfile(case["fmt"], case_text(case))
     c["err"] = ""
     # environment action: every fourth case meets its handle already used by an earlier call of the public
     # readers (format sniffing, a full read, a parse) - the answer must not depend on where the handle stands
@@ -271,7 +290,9 @@ def record_c08(case):
     except Exception as e:      # the error path is data; the spec decides whether it is allowed
         c["err"] = type(e).__name__
     finally:
-        os.remove(path)
+        if not os.path.basename(path).startswith("rewritten-"):
+            os.remove(path)
+    _PREV_TEXT[case["fmt"]] = case_text(case)
     return c
 
 
